@@ -63,11 +63,26 @@ class Scratch:
 # ----------------------------------------------------------------------------------------------
 # harness build
 
+def harness_dir(scratch):
+    """The harness module to build: /verif/harness itself for /repo, or (VERIF_REPO set, used to try seeded changes in
+    a scratch worktree without touching /repo) a scratch copy whose go.mod points at that tree."""
+    if os.path.realpath(REPO) == "/repo":
+        shutil.copyfile(os.path.join(REPO, "go.sum"), os.path.join(HARNESS, "go.sum"))
+        return HARNESS
+    dst = scratch.file("harness-src")
+    if not os.path.exists(dst):
+        shutil.copytree(HARNESS, dst)
+        gm = open(os.path.join(dst, "go.mod")).read().replace("=> /repo", "=> " + os.path.realpath(REPO))
+        open(os.path.join(dst, "go.mod"), "w").write(gm)
+        shutil.copyfile(os.path.join(REPO, "go.sum"), os.path.join(dst, "go.sum"))
+    return dst
+
+
 def build_harness(scratch, race=False):
     """Rebuild the Go harness against /repo's current working tree with hooks on."""
     out = scratch.file("harness-race" if race else "harness")
     env = dict(os.environ, **GOENV)
-    shutil.copyfile(os.path.join(REPO, "go.sum"), os.path.join(HARNESS, "go.sum"))
+    HARNESS = harness_dir(scratch)
     cmd = ["go1.26.8", "build", "-tags", "verif"]
     if race:
         cmd.append("-race")
